@@ -47,7 +47,8 @@ def parse_all(data: bytes, thorough: bool) -> dict:
         for mode, fn in (("flat", consume_flat), ("grouped", consume_grouped)):
             for srcname in ("bytesio", "raw"):
                 src = io.BytesIO(data) if srcname == "bytesio" else faultio.ScheduleRaw(data)
-                items, exc = fn(api, src)
+                # (the sinks of a grouped parse are dropped as they come: memory is judged)
+                items, exc = fn(api, src) if mode == "flat" else fn(api, src, keep=False)
                 out[f"{api}.{mode}.{srcname}"] = exc or "ok"
         if thorough:
             for reader in ("to_graph", "graph_parse") if api == "rdflib" else ("to_graph",):
@@ -251,6 +252,121 @@ def family_e3(thorough: bool = False):
                     jwire.mkrow("triple", {"s": ("iri", 1, 1), "p": ("iri", 1, 1),
                                            "o": ("literal", sbad, None, 1)})]
             yield "hostile-strings", jwire.write_delimited([jwire.enc_frame(rows)])
+
+
+def family_e3b():
+    """Inputs that open like a compressed file: tiny on the wire, enormous when inflated. A
+    reader that inflates them owes the caller a bound."""
+    import bz2  # noqa: PLC0415
+    import gzip  # noqa: PLC0415
+    import lzma  # noqa: PLC0415
+    import zlib  # noqa: PLC0415
+
+    opts = {"physical_type": 1, "max_name_table_size": 8, "version": 1}
+    tr = jwire.mkrow("triple", {"s": ("bnode", "a"), "p": ("bnode", "b"), "o": ("bnode", "c")})
+    valid = jwire.write_delimited([jwire.enc_frame([jwire.mkrow("options", opts), tr])])
+    frame = jwire.write_delimited([jwire.enc_frame([tr])])
+    n = 64 * 1024 * 1024
+    payloads = {"zero-frames": b"\x00" * n,
+                "valid-then-zero-frames": valid + b"\x00" * n,
+                "valid-then-frames": valid + frame * (n // len(frame))}
+    for pname, payload in payloads.items():
+        for cname, comp in (("gzip", lambda b: gzip.compress(b, 6)), ("zlib", zlib.compress),
+                            ("bz2", bz2.compress), ("xz", lzma.compress)):
+            if cname in ("bz2", "xz") and pname != "zero-frames":
+                continue
+            yield f"compressed-bomb-{cname}-{pname}", comp(payload)
+
+
+def family_e6():
+    """One container object that is parsed into repeatedly: after an input was refused, the
+    next parse into the same Graph / Dataset / sink must still come back (and deliver)."""
+    opts = {"physical_type": 1, "max_name_table_size": 8, "version": 1}
+    tr = jwire.mkrow("triple", {"s": ("bnode", "a"), "p": ("bnode", "b"), "o": ("bnode", "c")})
+    valid = jwire.write_delimited([jwire.enc_frame([jwire.mkrow("options", opts), tr])])
+    flipped = bytearray(valid)
+    flipped[3] ^= 0x40
+    bads = {"zeros": b"\x00\x00\x00", "text": b"data", "empty": b"", "truncated": valid[:-3],
+            "bit-flip": bytes(flipped), "valid": valid}
+    for bname, bad in bads.items():
+        for box in ("rdflib-graph", "rdflib-dataset", "rdflib-to_graph-factory", "generic-sink",
+                    "generic-to_graph-factory"):
+            yield f"{box}:{bname}", (box, bad, valid)
+
+
+def run_sequence(box: str, bad: bytes, valid: bytes):
+    """In a child process under a wall-clock alarm (a blocked lock burns no CPU time)."""
+    import json  # noqa: PLC0415
+
+    r, w = os.pipe()
+    pid = os.fork()
+    if pid == 0:
+        try:
+            os.close(r)
+
+            def bell(signum, frame):
+                os.write(w, json.dumps(["hang", "the second parse into the same container did "
+                                                "not come back within 20 s"]).encode())
+                os._exit(0)
+
+            signal.signal(signal.SIGALRM, bell)
+            signal.alarm(20)
+            res = [None, "ok"]
+            try:
+                if box.startswith("rdflib"):
+                    import rdflib  # noqa: PLC0415
+                    from pyjelly.integrations.rdflib.parse import parse_jelly_to_graph  # noqa: PLC0415
+
+                    g = rdflib.Dataset() if box == "rdflib-dataset" else rdflib.Graph()
+
+                    def load(b):
+                        if box == "rdflib-to_graph-factory":
+                            parse_jelly_to_graph(io.BytesIO(b), graph_factory=lambda: g)
+                        else:
+                            g.parse(io.BytesIO(b), format="jelly")
+
+                    size = lambda: len(g)  # noqa: E731
+                else:
+                    from pyjelly.integrations.generic.generic_sink import GenericStatementSink  # noqa: PLC0415
+                    from pyjelly.integrations.generic.parse import parse_jelly_to_graph  # noqa: PLC0415
+
+                    g = GenericStatementSink()
+
+                    def load(b):
+                        if box == "generic-to_graph-factory":
+                            parse_jelly_to_graph(io.BytesIO(b), sink_factory=lambda: g)
+                        else:
+                            g.parse(io.BytesIO(b))
+
+                    size = lambda: len(list(g))  # noqa: E731
+                for _ in range(2):
+                    try:
+                        load(bad)
+                    except Exception:  # noqa: BLE001
+                        pass
+                try:
+                    load(valid)
+                except Exception as e:  # noqa: BLE001
+                    res = ["refused", f"after the damaged input the same container refuses a "
+                                      f"valid stream: {type(e).__name__}: {e}"]
+                else:
+                    if size() < 1:
+                        res = ["refused", "the valid stream left nothing in the container"]
+            except BaseException as e:  # noqa: BLE001
+                res = ["fatal", f"{type(e).__name__}: {e}"]
+            os.write(w, json.dumps(res).encode())
+        finally:
+            os._exit(0)
+    os.close(w)
+    buf = b""
+    while chunk := os.read(r, 65536):
+        buf += chunk
+    os.close(r)
+    os.waitpid(pid, 0)
+    if not buf:
+        return "fatal", "child process ended without a result"
+    kind, detail = json.loads(buf)
+    return kind, detail
 
 
 def family_e5():
@@ -518,6 +634,12 @@ def shard(job) -> dict:
         elif fam == "e5":
             for label, d in family_e5():
                 yield "e5:" + label, d
+        elif fam == "e3b":
+            for label, d in list(family_e3b())[args[0]::args[1]]:
+                yield "e3:" + label, d
+        elif fam == "e6":
+            for label, d in family_e6():
+                yield "e6:" + label, d
         else:
             for label, d in list(family_e3(thorough))[args[0]::args[1]]:
                 yield "e3:" + label, d
@@ -526,8 +648,19 @@ def shard(job) -> dict:
         acc.evals += 1
         if progress:
             with open(progress, "wb") as f:
-                f.write(data[:4096])
-        if fam == "e5":
+                f.write(data[:4096] if isinstance(data, bytes) else data[1][:4096])
+        if fam == "e6":
+            kind, detail = run_sequence(*data)
+            outcomes = {"sequence": kind or "ok"}
+            if kind:
+                acc.nontrivial += 1
+                acc.violation({"fail": kind, "family": "e6", "label": label.split(":", 1)[1]},
+                              f"{label}: {detail}", {"family": label, "data": data[1].hex(),
+                                                      "thorough": thorough})
+            else:
+                acc.nontrivial += 1
+            continue
+        if fam in ("e5", "e3b"):
             kind, detail, outcomes = isolated(data, thorough)
         else:
             kind, detail, outcomes = run_one(data, thorough)
@@ -550,7 +683,8 @@ def shard(job) -> dict:
             acc.extra["aborted"] = True  # every further case would burn the time budget
             break
     acc.extra.update({"hist": hist, "worst_ms": worst, "max_rss_growth_kb": MAX_GROWN})
-    acc.sample({"family": fam, "example": (data[:24].hex() if acc.evals else "")}, cap=1)
+    acc.sample({"family": fam, "example": (data[:24].hex() if acc.evals and isinstance(data, bytes)
+                                           else "")}, cap=1)
     return acc.out()
 
 
@@ -575,6 +709,9 @@ def run(ctx) -> None:
     for i in range(8):
         jobs.append(("e3", (i, 8)))
     jobs.append(("e5", ()))
+    jobs.append(("e6", ()))
+    for i in range(4):
+        jobs.append(("e3b", (i, 4)))
     for kind, k in SCALING:
         jobs.append(("e4", (kind, k)))
     jobs = [(fam, args, thorough, os.path.join(tmp, f"p{i}")) for i, (fam, args) in enumerate(jobs)]
